@@ -78,7 +78,18 @@ fn alloc_query(p: *const u8) -> Option<usize> {
 fn main() {
     let _ = lru_mem::verif_harness::memsize::ALLOC_QUERY.set(alloc_query);
     let _ = lru_mem::verif_harness::tm::FAIL_HOOK.set(fail_hook);
-    let path = std::env::args().nth(1).expect("usage: replay-runner <cex.json>");
+    let path = std::env::args().nth(1).expect("usage: replay-runner <cex.json> | --search <harness> <iterations> <seed>");
+    if path == "--search" {
+        let h = std::env::args().nth(2).unwrap();
+        let iters: u64 = std::env::args().nth(3).and_then(|s| s.parse().ok()).unwrap_or(200000);
+        let seed: u64 = std::env::args().nth(4).and_then(|s| s.parse().ok()).unwrap_or(1);
+        if !lru_mem::verif_harness::search(&h, iters, seed) {
+            eprintln!("REPLAY-MISMATCH: unknown harness {}", h);
+            std::process::exit(3);
+        }
+        println!("SEARCH: no failing input found in {} iterations", iters);
+        return;
+    }
     let s = std::fs::read_to_string(path).unwrap();
     // minimal JSON reading: {"harness": "...", "vals": [[..],[..]]}
     let h = s.split("\"harness\": \"").nth(1).unwrap().split('"').next().unwrap().to_string();
